@@ -27,7 +27,7 @@ from concurrent.futures import ThreadPoolExecutor
 VERIF = os.path.dirname(os.path.dirname(os.path.abspath(__file__)))
 REPO = os.environ.get('VERIF_REPO', '/repo')
 MLCHECK = os.path.join(VERIF, 'bin', 'mlcheck')
-PROPS = ['C%02d' % i for i in range(1, 21) if i != 5]
+PROPS = ['C%02d' % i for i in range(1, 21)]
 
 
 def load_entries():
